@@ -102,3 +102,37 @@ def root_steps(fn, op, through=TRANSPARENT, depth=12):
 def blocks_under_edge(fn, sw_bb, succ):
     """blocks dominated by the edge sw_bb -> succ"""
     return [b for b in fn.live_blocks() if fn.edge_dominates(sw_bb, succ, b)]
+
+
+def capture_desc(prog, cf, op, depth=4):
+    """For an operand inside closure `cf` that reads a captured variable (field of the closure environment `arg1`):
+    the description of what the enclosing function captured there (name-independent). None if not a capture."""
+    from . import decision
+    st = cf.origin(op)
+    if not st or st[-1][0] != "arg" or st[-1][1] != 1:
+        return None
+    projs = [pr for s_ in st for pr in (s_[2] if len(s_) > 2 else []) if pr[0] == "f"]
+    if not projs:
+        return None
+    idx = projs[-1][1] if False else None
+    # the first field projection applied to the environment is the capture index
+    allp = []
+    for s_ in reversed(st):
+        for pr in (s_[2] if len(s_) > 2 else []):
+            allp.append(pr)
+    for pr in st[-1][2]:
+        if pr[0] == "f":
+            idx = pr[1]
+            break
+    if idx is None:
+        return None
+    par = prog.fns.get(cf.parent)
+    if par is None:
+        return None
+    for bi in sorted(par.live_blocks()):
+        for stt in par.blocks[bi]["st"]:
+            if stt["k"] == "=" and stt["r"][0] == "agg" and stt["r"][1].get("def") == cf.key:
+                ops = stt["r"][2]
+                if idx < len(ops):
+                    return decision.describe_deep(par, ops[idx], depth)
+    return None
